@@ -12,7 +12,7 @@ def run(tier, seed):
     if tier == "quick":
         maxL, maxR, maxT, step = 300, 8, 16, 50
     else:
-        maxL, maxR, maxT, step = 2000, 12, 24, 100
+        maxL, maxR, maxT, step = 3000, 16, 32, 100
     lo = 1
     while lo <= maxL:
         hi = min(maxL, lo + step - 1)
